@@ -295,7 +295,8 @@ pub fn cmd_text_fields(a: &HashMap<String, String>) -> i32 {
             Some(o) => o,
             None => b0.len(), // variable field that was empty: it starts at the end of the empty frame
         };
-        let maxlen = if thorough { 2 * f.n } else { f.n + 2 };
+        // variable fields: well beyond the cap also in the quick tier (lengths above 252 wrap 8-bit arithmetic)
+        let maxlen = if thorough { 2 * f.n } else if f.rule.starts_with("var") { f.n + 24 } else { f.n + 2 };
         for (fl, unit, _) in flavours.iter() {
             if f.raw && *fl != "ascii" {
                 continue;
@@ -345,6 +346,21 @@ pub fn cmd_text_fields(a: &HashMap<String, String>) -> i32 {
                             let _ = writeln!(w, "{}", json!({"ev": "Field", "kind": f.kind, "name": f.field, "rule": f.rule, "n": f.n, "flavour": fl,
                                                              "text": cps(&text), "enc": enc, "field": field}));
                             n += 1;
+                            // ... and what the decoder makes of that field (a text cut inside a double-byte character ends
+                            // in a lone lead byte followed by the terminator: decoding stops at the first NUL all the same)
+                            if !f.raw {
+                                match standalone("U", &frame) {
+                                    (crate::frames::Verdict::Pkt { .. }, Some(q)) => {
+                                        let got = q.to_abs()["rec"][f.field].clone();
+                                        let _ = writeln!(w, "{}", json!({"ev": "FieldDec", "kind": f.kind, "name": f.field, "field": field, "text": got}));
+                                        n += 1;
+                                    },
+                                    (v, _) => {
+                                        let _ = writeln!(w, "{}", json!({"ev": "Panic", "fn": "decode-own-frame", "in": [f.kind, f.field, k], "why": format!("{:?}", v)}));
+                                        n += 1;
+                                    },
+                                }
+                            }
                         },
                         Err(e) => {
                             // a text that makes the frame too long may be refused; anything else is reported
